@@ -4,7 +4,7 @@ from .common import TB_COMMON
 TB_SSZ = [
     "the SSZ rules in lean/Zrnt/SSZ (Type, Layout, Codec, Merkle): transcription of simple-serialize.md",
     "the per-fork schema transcription lean/Zrnt/Schema/Spec*.lean (hand-written from the published consensus specifications; oracle for 'canonical encoding defined by the specification's schema')",
-    "extract/sszfacts (go/ast): lists every Go type with the SSZ method set; recognises method bodies and view type definitions from a closed set of shapes (others are opaque, counted in ssz_facts); generates both Zrnt.Gen.SszFacts and the harness registry",
+    "extract/sszfacts + sszcodec/sszroot/ssztags (go/ast; data module Zrnt.Gen.SszFacts, row obligations split by what they speak about: four encoding methods -> SszCodec (C04), HashTreeRoot -> SszRoot (C05), json/yaml tags -> SszTags (C04)): lists every Go type with the SSZ method set; recognises method bodies and view type definitions from a closed set of shapes (others are opaque, counted in ssz_facts); generates both Zrnt.Gen.SszFacts and the harness registry",
     "Zrnt.Schema.Facts.checkType (the decision procedure the table theorems are about) incl. the polynomial normal form used to compare limit expressions for all configurations",
     "ztyp (codec, views, tree), encoding/json, yaml.v3: dependencies, exercised through zrnt by the correspondence, not verified",
     "harness framing convention: an input counts as accepted by Go only if Deserialize returns nil and read every byte of its scope",
@@ -19,6 +19,10 @@ def facts_coverage(ctx):
     import os, re, subprocess
     root = os.path.dirname(os.path.dirname(os.path.dirname(os.path.abspath(__file__))))
     p = os.path.join(root, "lean", "Zrnt", "Gen", "SszFacts.lean")
+    # when the regenerated table did not compile, the flow put the last compiling copy back and kept the new one as
+    # SszFacts.lean.rejected: the rows to name are those of the rejected file
+    if any(b.get("what") == "regen:extract:sszfacts" for b in ctx.get("broken", [])) and os.path.exists(p + ".rejected"):
+        p = p + ".rejected"
     try:
         src = open(p).read()
     except OSError:
@@ -27,13 +31,25 @@ def facts_coverage(ctx):
     opaque = re.findall(r'"([^"]+)"', m.group(1)) if m else []
     cov = dict(ssz_facts=dict(go_types=len(re.findall(r"^def T_", src, re.M)), view_type_defs=len(re.findall(r"^def V_", src, re.M)),
                               method_bodies=5 * len(re.findall(r"^def T_", src, re.M)), opaque_method_bodies=len(opaque),
-                              opaque_list=opaque, row_obligations=len(re.findall(r"^theorem row_ok_", src, re.M))))
+                              opaque_list=opaque))
+    rows_mod = "SszRoot" if ctx.get("prop") == "C05" else "SszCodec"
+    try:
+        cov["ssz_facts"]["row_obligations"] = len(re.findall(r"^theorem row_ok_", open(os.path.join(os.path.dirname(p), rows_mod + ".lean")).read(), re.M))
+        cov["ssz_facts"]["row_obligations_module"] = "Zrnt.Gen." + rows_mod
+    except OSError:
+        pass
     # evaluate checkType on every row (compiled evaluation, ~4 s): names the offending rows when the facts module no
     # longer builds, and reports the rows that deviate exactly as recorded in Zrnt.Schema.KnownDeviations as
     # (known) findings
-    body = src.split("theorem row_ok_")[0]
-    script = body + ("\nopen Zrnt.Schema in\n#eval (types.filterMap fun T => (checkType owners views T).map "
-                     "fun r => s!\"ROW {Name.toString T.name}: {r}\")\nend Zrnt.Gen.SszFacts\n")
+    body = src.split("\nend Zrnt.Gen.SszFacts")[0]
+    # each property evaluates its own part of the row check: C04 the four encoding methods (+ tags), C05 HashTreeRoot
+    part = ".root" if ctx.get("prop") == "C05" else ".codec"
+    script = body + ("\nopen Zrnt.Schema in\n#eval (types.filterMap fun T => (checkType owners views %s T).map "
+                     "fun r => s!\"ROW {Name.toString T.name}: {r}\")\n" % part)
+    if ctx.get("prop") == "C04":   # the text-form obligations (json/yaml tags) are C04's alone
+        script += ("open Zrnt.Schema in\n#eval (types.filterMap fun T => (checkTags T).map "
+                   "fun r => s!\"ROW {Name.toString T.name}: {r}\")\n")
+    script += "end Zrnt.Gen.SszFacts\n"
     os.makedirs(os.path.join(root, "build", "audit"), exist_ok=True)
     sp = os.path.join(root, "build", "audit", "ssz_rows_%s.lean" % ctx.get("prop", "x"))
     open(sp, "w").write(script)
@@ -71,12 +87,16 @@ PROPS = {"C04": dict(
               "Zrnt.Proofs.C04.decode_some_imp_canonical", "Zrnt.Proofs.C04.decode_injective",
               "Zrnt.Proofs.C04.decode_list_within_limit", "Zrnt.Proofs.C04.encode_injective",
               "Zrnt.Proofs.C04.schema_types_legal", "Zrnt.Proofs.C04.schema_round_trip", "Zrnt.Proofs.C04.limits_agree_for_all_configs",
-              "Zrnt.Proofs.C04.ssz_methods_agree", "Zrnt.Proofs.C04.known_deviations_are", "Zrnt.Proofs.C04.ssz_types_complete",
+              "Zrnt.Proofs.C04.ssz_methods_agree", "Zrnt.Proofs.C04.ssz_text_tags_agree", "Zrnt.Proofs.C04.known_deviations_are", "Zrnt.Proofs.C04.ssz_types_complete",
               "Zrnt.Proofs.C04.no_opaque_bodies", "Zrnt.Proofs.C04.checkType_sound_struct",
               "Zrnt.Proofs.C04.checkType_sound_list", "Zrnt.Proofs.C04.checkType_sound_vector",
               "Zrnt.Proofs.C04.checkType_sound_bitfield", "Zrnt.Proofs.C04.checkType_sound_leaf", "Zrnt.Proofs.C04.leaf_meets_lift",
+              "Zrnt.Proofs.C04.row_methods_not_opaque",
               "Zrnt.Proofs.C04.soundness_covers_all_rows", "Zrnt.Proofs.C04.readBitList_eq_decode"],
-    modes=[dict(name="ssz")],
+    # C04's view of the shared `ssz` result line: everything but the roots. The decoded value stays pinned without `htr=`:
+    # Go reports `ser=` when re-serializing the decoded value does not give back the input bytes, and the JSON text of
+    # the decoded value is compared with the canonical text of the value the specification decodes (`json=`).
+    modes=[dict(name="ssz", strip=[r" htr=[0-9a-f]+", r" viewhtr=[0-9a-f]+"])],
     level="proof",
     trusted_base=TB_COMMON + TB_SSZ,
     assumptions=["encodings shorter than 2^32 bytes (SSZ offsets are 32-bit)",
